@@ -28,14 +28,17 @@ import (
 )
 
 type entryInfo struct {
-	Name    string
-	MaxV    int16
-	Records bool   // wrong-records oracle applies
-	Decomp  bool   // may reach decompress(): larger allocation allowance
-	Loop    bool   // top level is a `for remaining() > 0` loop with partial-trailing semantics (no trailing-bytes oracle)
-	Model   string // name of the Lean format ("" = none); only for version ModelV
-	ModelV  int16
-	Variant string // which observed variant the format depends on
+	Name     string
+	MaxV     int16
+	Records  bool   // wrong-records oracle applies
+	Decomp   bool   // may reach decompress(): larger allocation allowance
+	Loop     bool   // top level is a `for remaining() > 0` loop with partial-trailing semantics (no trailing-bytes oracle)
+	Model    string // name of the Lean format ("" = none); only for version ModelV
+	ModelV   int16
+	Variant  string // which observed variant the format depends on
+	ModelAll bool   // the format does not depend on the version (the version is a field inside the blob)
+	Members  bool   // a response that carries group member blobs, decoded through its accessor methods
+	Blob     bool   // a group member blob (metadata / assignment) written by another member
 }
 
 var entryByName = map[string]*entryInfo{}
@@ -56,8 +59,12 @@ func initEntries() {
 		case "Record":
 			ei.Model, ei.Variant = "Record", "recordHeaderCount"
 		case "ConsumerGroupMemberMetadata":
-			ei.Model, ei.Variant = e.Name, "getStringArray"
-		case "ConsumerGroupMemberAssignment", "StickyAssignorUserDataV0", "StickyAssignorUserDataV1":
+			ei.Model, ei.Variant, ei.ModelAll, ei.Blob = e.Name, "getStringArray", true, true
+		case "ConsumerGroupMemberAssignment":
+			ei.Model, ei.Variant, ei.ModelAll, ei.Blob = e.Name, "getArrayLength", true, true
+		case "JoinGroupResponse.GetMembers", "DescribeGroupsResponse.members":
+			ei.Members = true
+		case "StickyAssignorUserDataV0", "StickyAssignorUserDataV1":
 			ei.Model, ei.Variant = e.Name, "getArrayLength"
 		case "MetadataResponse":
 			ei.Model, ei.Variant, ei.ModelV = "MetadataResponseV0", "getArrayLength", 0
@@ -210,7 +217,13 @@ func be16(v uint16) []byte { return []byte{byte(v >> 8), byte(v)} }
 func lenValues(rem int, scale int) []int64 {
 	q := int64(rem / scale)
 	return []int64{-2, -1, 0, 1, 2, q - 1, q, q + 1, int64(rem), int64(rem) + 1, 127, 128, 300, 131070, 131071, 65536, 1 << 20, 1 << 26,
-		0x7fffffff, 0x80000000, 0xffffffff, 1 << 40, 1 << 62, -(1 << 62)}
+		0x7fffffff, 0x80000000, 0xffffffff, 1 << 40, 1 << 62, -(1 << 62),
+		0x7fffffffffffffff, 0x7fffffffffffffff - int64(rem), 0x7ffffffffffffff0, -0x8000000000000000}
+}
+
+func pickLen(rem int, scale int) int64 {
+	v := lenValues(rem, scale)
+	return v[rnd.Intn(len(v))]
 }
 
 func genPrimOps(n int) []string {
@@ -298,7 +311,7 @@ func genPrimOps(n int) []string {
 				case "field":
 					lf = be32(uint32(want))
 					if rnd.Intn(8) == 0 {
-						lf = be32(uint32(lenValues(len(body), 1)[rnd.Intn(24)]))
+						lf = be32(uint32(pickLen(len(body), 1)))
 					}
 				case "vfield":
 					lf = putVarint(want)
@@ -323,7 +336,7 @@ func genPrimOps(n int) []string {
 				b := append(append(append([]byte{}, pre...), lf...), body...)
 				kArg := int64(k)
 				if rnd.Intn(10) == 0 {
-					kArg = lenValues(len(body), 1)[rnd.Intn(24)]
+					kArg = pickLen(len(body), 1)
 				}
 				emit(b, len(pre), kArg)
 			}
@@ -372,6 +385,7 @@ var inserts = [][]byte{
 	{0xff, 0xff, 0xff, 0xff, 0xff, 0xff, 0xff, 0xff, 0xff, 0x01},       // uvarint 2^64-1
 	{0x80, 0x80, 0x80, 0x80, 0x80, 0x80, 0x80, 0x80, 0x80, 0x80, 0x01}, // overflow
 	{0x80, 0x80, 0x80, 0x80, 0x80, 0x40},                               // varint 2^40
+	{0xfe, 0xff, 0xff, 0xff, 0xff, 0xff, 0xff, 0xff, 0xff, 0x01},       // varint 2^63-1 (offset + length overflows int)
 }
 
 func with(valid []byte, i int, repl []byte, drop int) []byte {
@@ -598,6 +612,72 @@ func recordBoundaryMutations(valid []byte, at int) []mut {
 	return ms
 }
 
+// trailingArrayMutations: data appended AFTER the last field of a group member blob (newer protocol versions
+// append arrays there): an array count of -1, -2, 0, 1, 2, huge, alone, followed by one element, and truncated
+func trailingArrayMutations(blob []byte) [][]byte {
+	var out [][]byte
+	elem := []byte{0x00, 0x01, 't', 0x00, 0x00, 0x00, 0x01, 0x00, 0x00, 0x00, 0x07} // string "t", int32 array [7]
+	for _, x := range []int64{-1, -2, 0, 1, 2, 131071, 0x7fffffff, 1 << 20} {
+		cnt := be32(uint32(x))
+		out = append(out, append(append([]byte{}, blob...), cnt...))
+		out = append(out, append(append(append([]byte{}, blob...), cnt...), elem...))
+	}
+	for k := 1; k <= 3; k++ {
+		out = append(out, append(append([]byte{}, blob...), be32(1)[:k]...))
+	}
+	out = append(out, append(append(append([]byte{}, blob...), be32(2)...), elem...)) // two announced, one present
+	return out
+}
+
+// blobMutations of an encoding that embeds group member blobs as 4-byte-length-prefixed byte strings:
+// every occurrence of a blob is replaced by each of its trailing-array mutations (length prefix adjusted)
+func blobSpliceMutations(valid []byte, blobs [][]byte) []mut {
+	var ms []mut
+	for _, b := range blobs {
+		pat := append(be32(uint32(len(b))), b...)
+		for i := 0; i+len(pat) <= len(valid); i++ {
+			if string(valid[i:i+len(pat)]) != string(pat) {
+				continue
+			}
+			for _, nb := range trailingArrayMutations(b) {
+				repl := append(be32(uint32(len(nb))), nb...)
+				ms = append(ms, mut{"member-blob-trailing-array", with(valid, i, repl, len(pat))})
+			}
+			// the blob's own Version field (first two bytes) raised, with and without trailing data
+			for v := byte(1); v <= 3; v++ {
+				nb := append([]byte{}, b...)
+				if len(nb) >= 2 {
+					nb[0], nb[1] = 0, v
+					ms = append(ms, mut{"member-blob-version", with(valid, i, append(be32(uint32(len(nb))), nb...), len(pat))})
+					for _, t := range trailingArrayMutations(nb)[:6] {
+						ms = append(ms, mut{"member-blob-version+trailing", with(valid, i, append(be32(uint32(len(t))), t...), len(pat))})
+					}
+				}
+			}
+			break
+		}
+	}
+	return ms
+}
+
+// magicMutations: the magic byte (offset 16) of every v2 record batch set to values the client does not know
+func magicMutations(valid []byte) []mut {
+	var ms []mut
+	for at := 0; at+61 <= len(valid); at++ {
+		if valid[at+16] != 2 {
+			continue
+		}
+		bl := i32at(valid, at+8)
+		if bl < 49 || int64(at)+12+bl > int64(len(valid)) {
+			continue
+		}
+		for _, m := range []byte{3, 6, 10, 0x42, 0x7f, 0x80} {
+			ms = append(ms, mut{fmt.Sprintf("batch-magic=%d", m), with(valid, at+16, []byte{m}, 1)})
+		}
+	}
+	return ms
+}
+
 func patName(v, rem int64) string {
 	switch {
 	case v == rem+1:
@@ -636,7 +716,7 @@ func extraMutation(valid []byte) mut {
 		b := append([]byte{}, valid...)
 		for k := 0; k < 2 && n >= 4; k++ {
 			i := rnd.Intn(n - 3)
-			copy(b[i:], be32(uint32(lenValues(n-i-4, 1)[rnd.Intn(24)])))
+			copy(b[i:], be32(uint32(pickLen(n-i-4, 1))))
 		}
 		return mut{"two-int32", b}
 	default:
@@ -649,54 +729,95 @@ type sample struct {
 	version int16
 	codec   int
 	valid   []byte
+	blobs   [][]byte // group member blobs embedded in the encoding (length-prefixed with 4 bytes)
 }
 
 func buildSamples(perPair int, allCodecs bool) []sample {
-	var out []sample
+	// candidates are ENCODED here (sarama's own encoders on values of its own types) and validated by decoding
+	// them in the worker subprocesses - the master never runs a decoder
+	type cand struct {
+		s   sample
+		key string
+	}
+	var cands []cand
 	next := func() uint64 { return rnd.U64() }
+	memberBlob := func(name string, v int16) []byte {
+		b, err := sarama.VerifC10Sample(name, v, 0, true, false, next)
+		if err != nil {
+			return []byte{0, byte(v), 0, 0, 0, 0, 0xff, 0xff, 0xff, 0xff}
+		}
+		return b
+	}
 	for _, name := range entryOrder {
 		e := entryByName[name]
 		for v := int16(0); v <= e.MaxV; v++ {
 			codecs := []int{0}
 			if e.Decomp {
-				if allCodecs {
+				if allCodecs || name != "FetchResponse" {
 					codecs = []int{0, 1, 2, 3, 4}
-				} else if name == "FetchResponse" {
-					codecs = []int{int(v) % 5}
 				} else {
-					codecs = []int{0, 1, 2, 3, 4}
+					codecs = []int{int(v) % 5}
 				}
 			}
 			for _, c := range codecs {
-				got := 0
-				for try := 0; try < perPair*12 && got < perPair; try++ {
-					b, err := sarama.VerifC10Sample(name, v, c, got == 0 && try < perPair*6, next)
-					if err != nil {
+				key := name + "/" + strconv.Itoa(int(v)) + "/" + strconv.Itoa(c)
+				for try := 0; try < perPair*4; try++ {
+					var b []byte
+					var err error
+					var blobs [][]byte
+					if e.Members {
+						// member blobs of every blob version inside the response
+						bv := int16((int(v) + try) % 4)
+						meta, asg := memberBlob("ConsumerGroupMemberMetadata", bv), memberBlob("ConsumerGroupMemberAssignment", bv)
+						blobs = [][]byte{meta, asg}
+						b, err = sarama.VerifC10WrapMembers(name, v, meta, asg, next)
+					} else {
+						b, err = sarama.VerifC10Sample(name, v, c, try < perPair*2, false, next)
+					}
+					if err != nil || len(b) > 1500 {
 						run.Count("sample-rejected")
-						if try == perPair*12-1 {
-							run.Count("nosample:" + name + "/" + strconv.Itoa(int(v)))
-						}
 						continue
 					}
-					if len(b) > 1500 {
-						continue
-					}
-					// distinct samples only
-					dup := false
-					for _, s := range out[len(out)-got:] {
-						if string(s.valid) == string(b) {
-							dup = true
-						}
-					}
-					if dup {
-						continue
-					}
-					out = append(out, sample{e, v, c, b})
-					got++
+					cands = append(cands, cand{sample{e, v, c, b, blobs}, key})
 				}
-				if got == 0 {
-					run.Count("nosample:" + name + "/" + strconv.Itoa(int(v)) + "/codec" + strconv.Itoa(c))
+			}
+		}
+	}
+	lines := make([]string, len(cands))
+	for i, c := range cands {
+		lines[i] = "d " + c.s.entry.Name + " " + strconv.Itoa(int(c.s.version)) + " " + hx(c.s.valid)
+	}
+	res := workers.exec(lines)
+	var out []sample
+	got := map[string]int{}
+	seen := map[string]bool{}
+	for i, c := range cands {
+		if res[i].dead != "" || !strings.HasPrefix(res[i].line, "ok\t") {
+			run.Count("sample-rejected")
+			if res[i].dead == "hang" {
+				fail("decode-hangs:"+c.s.entry.Name, lines[i], "decode of a VALID encoding did not return within the watchdog period")
+			}
+			continue
+		}
+		id := c.key + string(c.s.valid)
+		if got[c.key] >= perPair || seen[id] {
+			continue
+		}
+		seen[id] = true
+		got[c.key]++
+		out = append(out, c.s)
+	}
+	for _, name := range entryOrder {
+		e := entryByName[name]
+		for v := int16(0); v <= e.MaxV; v++ {
+			n := 0
+			for k, g := range got {
+				if strings.HasPrefix(k, name+"/"+strconv.Itoa(int(v))+"/") {
+					n += g
 				}
+			}
+			if n == 0 {
+				run.Count("nosample:" + name + "/" + strconv.Itoa(int(v)))
 			}
 		}
 	}
@@ -765,6 +886,15 @@ func judge(op entryOp, r opResult) {
 	run.Count("mut:" + op.kind)
 	class, kind, site, render, origRender := "", "-", "-", "", ""
 	var alloc uint64
+	if r.dead == "skipped" {
+		run.Count("skipped-after-hangs:" + e.Name)
+		return
+	}
+	if r.dead == "hang" {
+		run.Count("class:hang")
+		fail("decode-hangs:"+e.Name, replay, "decode did not return within the watchdog period (confirmed alone in a fresh worker with three times the period); the worker was killed and replaced")
+		return
+	}
 	if r.dead != "" {
 		class = r.dead
 		run.Count("class:" + class)
@@ -807,7 +937,7 @@ func judge(op entryOp, r opResult) {
 		}
 	}
 	// differential line for entries that have a Lean format
-	if e.Model != "" && op.ver == e.ModelV && !op.trail && op.must == "" {
+	if e.Model != "" && (op.ver == e.ModelV || e.ModelAll) && !op.trail && op.must == "" {
 		lim := modelLimit(len(op.input))
 		ans := ""
 		switch {
@@ -843,6 +973,10 @@ func judge(op entryOp, r opResult) {
 
 func judgePrim(op string, r opResult) {
 	t := strings.Fields(op)
+	if r.dead == "skipped" {
+		run.Count("skipped-after-hangs:prim")
+		return
+	}
 	if r.dead != "" {
 		ans := r.dead
 		run.Count("class:prim-" + ans)
@@ -940,6 +1074,19 @@ func opsForSample(s sample, budgetExtra int) []entryOp {
 	}
 	if e.Decomp {
 		for _, m := range frameMutations(s.valid) {
+			out = append(out, mk(m.kind, m.data))
+		}
+		for _, m := range magicMutations(s.valid) {
+			out = append(out, mk(m.kind, m.data))
+		}
+	}
+	if e.Blob {
+		for _, d := range trailingArrayMutations(s.valid) {
+			out = append(out, mk("member-blob-trailing-array", d))
+		}
+	}
+	if e.Members {
+		for _, m := range blobSpliceMutations(s.valid, s.blobs) {
 			out = append(out, mk(m.kind, m.data))
 		}
 	}
@@ -1081,9 +1228,10 @@ func main() {
 	}
 	run = hlib.Start("C10")
 	rnd = hlib.NewRand(run.Seed)
-	timeout := 20 * time.Second
+	// watchdog per operation (a decode takes micro- to milliseconds); a hang is confirmed alone with 3x the period
+	timeout := 3 * time.Second
 	if run.Tier == "thorough" {
-		timeout = 60 * time.Second
+		timeout = 8 * time.Second
 	}
 	workers = newPool(timeout)
 	t0 := time.Now()
@@ -1167,6 +1315,7 @@ func finish(t0 time.Time) {
 	}
 	run.Set("signature_counts", counts)
 	run.Set("worker_deaths", workers.deaths)
+	run.Set("ops_skipped_after_hangs", workers.skipped)
 	run.Set("worker_deaths_not_reproduced_alone", workers.flaky)
 	run.Set("observed_variants", variants)
 	run.Set("harness_wall_s", int(time.Since(t0).Seconds()))
